@@ -20,10 +20,11 @@ PRISTINE = {"H": 0, "A": 0, "D": 5_000_000, "Dcount": 0, "R": 0, "G": "on", "Lg"
 
 TIERS = {
     # batches, worlds per batch, targets per batch, real-layout worlds per batch, canary procs, census worlds
-    "quick": {"batches": 3, "worlds": 12, "targets": 40, "real": 3, "canary": 16, "abort": 0.20, "resalt": 0.0, "census": 3},
+    "quick": {"batches": 2, "worlds": 12, "targets": 40, "real": 3, "canary": 16, "abort": 0.20, "resalt": 0.0, "census": 3},
     "thorough": {"batches": 12, "worlds": 48, "targets": 64, "real": 16, "canary": 48, "abort": 0.15, "resalt": 0.05, "census": 10},
 }
-CENSUS_CHUNK = 90
+CENSUS_CHUNK = 45
+QUICK_DERIVED_STEPS = 1_000_000
 
 
 def build_targets(seed: int, batch: int, n: int, base: list[dict]) -> dict:
@@ -123,8 +124,11 @@ def build_census(seed: int, nworlds: int, programs: list[dict], all_masks: bool)
     """every workload program once under `default` and `all` in every census world; each world runs
     the programs in its own shuffled order, cut into several worker processes (= several histories)"""
     targets = {}
+    costs = workload._costs()  # pylint: disable=protected-access
     for b in programs:
         derived = b.get("src") in ("wide", "twin")
+        if derived and not all_masks and workload.cost_of(b["id"], costs) > QUICK_DERIVED_STEPS:
+            continue  # the most expensive derived programs are left to the thorough tier (decided by committed data)
         for mask, mn in ((workload.DEFAULT, "d"), (workload.ALL, "a")):
             if derived and not all_masks and (mn == "a") != (len(targets) % 5 == 0):
                 continue  # quick tier: a derived program gets one of the two trait sets (mostly default)
@@ -199,7 +203,7 @@ class Table:
                     site = (ev.get("at") or "?").split(":")[0]
                     self.abort_sites[site] = self.abort_sites.get(site, 0) + 1
                     continue
-                if oc == "DIVERGED:steps" or oc.startswith("SKIPPED"):
+                if oc in ("DIVERGED:steps", "DIVERGED:cpu") or oc.startswith("SKIPPED"):
                     self.step_div += 1
                     continue
                 wit = dict(wit_base)
